@@ -69,7 +69,8 @@ def same_trees(a, b):
     return acc
 
 
-def order_independence(k0, k1, k2, d0, d1, d2, ff1, fs1, ff2, fs2):
+def order_independence(k0, k1, k2, d0, d1, d2, ff2, fs2):
+    ff1 = fs1 = False  # w.l.o.g. the first build uses the baseline order, the second any order
     """two keyword files; file 'a' lists keywords k0 and k1, file 'b' lists k2 (1 free byte each: equal words in
     two files and case variants in one file arise by themselves); the registry is built twice under two
     independent choices of directory order and set iteration order; scanning the same 3 free bytes must give
@@ -89,20 +90,24 @@ def order_independence(k0, k1, k2, d0, d1, d2, ff1, fs1, ff2, fs2):
     return True, len(t1.children) >= 2
 
 
-KWCH = "({x} == 97 or {x} == 65 or {x} == 98 or {x} == 45)"  # a A b -
+KW3 = "({x} == 97 or {x} == 65 or {x} == 98)"  # a A b
+KW2 = "({x} == 97 or {x} == 98)"
+DL = "({x} == 45 or {x} == 97)"  # - a
 OBLIGATIONS = [
     Ob("order_independence", order_independence,
-       bytes_params("k", 3) + bytes_params("d", 3) + [("ff1", "bool"), ("fs1", "bool"), ("ff2", "bool"), ("fs2", "bool")],
-       pre=" and ".join(KWCH.format(x=f"k{i}") for i in range(3)) + " and " + " and ".join(KWCH.format(x=f"d{i}") + "" for i in range(3)),
+       bytes_params("k", 3) + bytes_params("d", 3) + [("ff2", "bool"), ("fs2", "bool")],
+       pre=" and ".join([KW3.format(x="k0"), KW3.format(x="k1"), KW2.format(x="k2"), DL.format(x="d0"), KW3.format(x="d1"), DL.format(x="d2")]),
+       splits=["ff2 == True and fs2 == False", "ff2 == False and fs2 == True", "ff2 == True and fs2 == True"],
        tier="both", timeout=900, layer="B",
        functions=["multidecoder.registry.get_keywords", "multidecoder.keyword.find_keywords", "multidecoder.multidecoder.Multidecoder.scan_node"],
        stubs=["os.walk / open: in-memory keyword directory enumerated in an arbitrary (forward or reverse) order",
               "the name `set` in multidecoder.registry: a set subclass iterating in an arbitrary (ascending or descending) order"],
-       bound="2 keyword files with 2+1 one-byte keywords over {a A b -}, data of 3 bytes over the same alphabet, two independent order choices"),
+       bound="2 keyword files with 2+1 one-byte keywords over {a A b}, data of 3 bytes over {- a A b}, baseline order vs. each of the 3 other order choices"),
 ]
 
 
-def history(x0, x1, y0, y1):
+def history(x0, x1, y0):
+    y1 = 32
     """scan(x); scan(y); scan(x) on one scanner built from real decoders: the third tree equals the first and equals
     a fresh scanner's; decoders return fresh objects every time."""
     kw = partial(find_keywords, "kw", [b"a", b"'"])
@@ -125,8 +130,9 @@ def history(x0, x1, y0, y1):
     return True, len(t1.children) >= 1
 
 
-OBLIGATIONS.append(Ob("history_independence", history, bytes_params("x", 2) + bytes_params("y", 2), tier="both", timeout=900, layer="C",
-                      pre="x0 != 39 and x0 != 34",
+H6 = "({x} == 97 or {x} == 98 or {x} == 39 or {x} == 43 or {x} == 32 or {x} == 41)"
+OBLIGATIONS.append(Ob("history_independence", history, bytes_params("x", 2) + bytes_params("y", 1), tier="both", timeout=900, layer="C",
+                      pre="(x0 == 97 or x0 == 98 or x0 == 43 or x0 == 32) and " + H6.format(x="x1") + " and " + H6.format(x="y0"),
                       functions=["multidecoder.multidecoder.Multidecoder.scan", "multidecoder.decoders.concat.find_concat",
                                  "multidecoder.decoders.reverse.find_reverse", "multidecoder.keyword.find_keywords"],
-                      bound="one scanner (keywords + concat + reverse); x = concat skeleton with 2 free bytes, y = reverse skeleton with 2 free bytes"))
+                      bound="one scanner (keywords + concat + reverse); x = concat skeleton with 2 free bytes, y = reverse skeleton with 1 free byte, each over a 4-6 value alphabet of delimiter / quote / letter bytes"))
